@@ -23,6 +23,7 @@ impl VFsW {
     // bytes; on failure ANY content may be left under that name (partial write); no other name is touched
     #[verifier::external_body]
     pub fn vwrite_local_file(&mut self, name: &PathW, content: &BytesList) -> (r: RusticResult<()>)
+        requires name.key@ is Tmp,   // a non-atomic write may only go to a temporary name (an interrupted one must never leave a partial ENTRY)
         ensures
             r is Ok ==> final(self).files@ == old(self).files@.insert(name.key@, content.data@),
             forall|k: PKey| k != name.key@ ==> (#[trigger] final(self).files@.dom().contains(k)) == old(self).files@.dom().contains(k),
